@@ -1042,7 +1042,7 @@ theorem C13_convert_cull_in_place (o : Obj) (ts : Nat) (h : (step o (.convCull t
   | error e => rw [hcv] at h; simp at h
   | ok r =>
     simp only []
-    unfold convCullP at hcv
+    unfold convCullP convCullWith at hcv
     split at hcv
     · cases hcv
     · next himm =>
@@ -1050,26 +1050,28 @@ theorem C13_convert_cull_in_place (o : Obj) (ts : Nat) (h : (step o (.convCull t
       · next hv =>
         split at hcv
         · cases hcv
-        · next nap hn =>
-          injection hcv with hcv
-          subst hcv
-          unfold liftAP at hn
-          split at hn
-          · next a ha =>
-            injection hn with hn
-            subst hn
-            have hwf := AP.C04_mk_wf _ _ _ _ _ _ _ _ _ ha
-            obtain ⟨-, -, -, -, -, -, -, hts', -⟩ := hwf
-            have hts0 : ts ≠ 0 := by
-              intro h0; subst h0; revert hv; decide
-            refine ⟨?_, ?_, hv, ?_, ?_, ?_⟩
-            · simp [Obj.pub, Obj.moys, Pub.pairs, zip_map_fst_snd]
-            · show a.timestep = ts
-              simp only [AP.orD] at hts'; split at hts' <;> omega
-            · trivial
-            · trivial
-            · simpa [Obj.pub] using himm
-          · cases hn
+        · split at hcv
+          · cases hcv
+          · next nap hn =>
+            injection hcv with hcv
+            subst hcv
+            unfold liftAP at hn
+            split at hn
+            · next a ha =>
+              injection hn with hn
+              subst hn
+              have hwf := AP.C04_mk_wf _ _ _ _ _ _ _ _ _ ha
+              obtain ⟨-, -, -, -, -, -, -, hts', -⟩ := hwf
+              have hts0 : ts ≠ 0 := by
+                intro h0; subst h0; revert hv; decide
+              refine ⟨?_, ?_, hv, ?_, ?_, ?_⟩
+              · simp [Obj.pub, Obj.moys, Pub.pairs, zip_map_fst_snd]
+              · show a.timestep = ts
+                simp only [AP.orD] at hts'; split at hts' <;> omega
+              · trivial
+              · trivial
+              · simpa [Obj.pub] using himm
+            · cases hn
       · cases hcv
 
 /-- Non-vacuity of `C13_validate_after_history` / `C13_refused_preserves`: an object and a history
@@ -1087,10 +1089,227 @@ def exObj : Obj := ⟨false, false, ⟨6, 21, 0, 6, 21, 23, 1, false⟩, [3, 1, 
 example (e : OErr) (h : (step exObj (.convCull 7)).2 = .refused e) : (step exObj (.convCull 7)).1 = exObj :=
   (C13_refused_preserves exObj _ e h).1
 
-example :
-    let o : Obj := ⟨true, false, ⟨7, 14, 0, 7, 14, 23, 6, false⟩, (List.range 144).map (fun (k : Nat) => (k : Rat)), none,
-      true, false, true⟩
-    ((step o (.convCull 4)).1.pub.pairs.take 3) = [(194 * 1440, 0), (194 * 1440 + 30, 3), (194 * 1440 + 60, 6)] := by
+/-- A continuous 10-minute collection over one day (144 values). -/
+def exCont6 : Obj := ⟨true, false, ⟨7, 14, 0, 7, 14, 23, 6, false⟩, (List.range 144).map (fun (k : Nat) => (k : Rat)), none,
+  true, false, true⟩
+
+-- a dividing in-place cull of a continuous collection (6 -> 2) keeps :00 and :30, whatever the strictness
+example : ((step exCont6 (.convCull 2)).1.pub.pairs.take 3) = [(194 * 1440, 0), (194 * 1440 + 30, 3), (194 * 1440 + 60, 6)] := by
   decide +kernel
+
+/-! ### Sibling classes and branches (round 4) -/
+
+/-- **The mutable and the immutable twin get the same derived collections**: `cull_to_timestep`,
+    `interpolate_to_timestep`, and – for discontinuous collections – `validate_analysis_period` and
+    `interpolate_holes` answer the same collection whether the source is mutable or immutable (the
+    answer is a new mutable collection in every case). -/
+theorem C13_twins_agree (p : Pub) (b : Bool) :
+    (∀ ts, cullP { p with imm := b } ts = cullP p ts) ∧
+    (∀ ts cum, interpP { p with imm := b } ts cum = interpP p ts cum) ∧
+    (p.cont = false → validateP { p with imm := b } = validateP p ∧ holesP { p with imm := b } = holesP p) := by
+  refine ⟨fun ts => ?_, fun ts cum => ?_, fun hc => ⟨?_, ?_⟩⟩
+  · simp [cullP, Pub.pairs, mkDisc]
+  · simp [interpP, mkCont]
+  · simp [validateP, hc, Pub.pairs, mkDisc]
+  · simp [holesP, hc, Pub.pairs, mkCont]
+
+/-- **A continuous collection and its copies**: validation and hole filling of a continuous collection
+    are the copy operation of its class (the overrides of `HourlyContinuousCollection`), so they keep
+    period, values and mutability. -/
+theorem C13_continuous_overrides_copy (p : Pub) (hc : p.cont = true) :
+    validateP p = copyP p p.imm ∧ holesP p = copyP p p.imm := by
+  simp [validateP, holesP, hc]
+
+/-- **The `cumulative` argument overrides the data type**: when the caller passes True or False the
+    cumulative flag of the data type plays no role; with the default it alone decides whether the
+    refined values are divided by the number of sub-steps. -/
+theorem C13_interp_cumulative_branches (ap : AP) (vals : List Rat) (ts : Nat) (b nc nc' pit : Bool) :
+    interpolateToTimestep ap vals ts (some b) nc pit = interpolateToTimestep ap vals ts (some b) nc' pit ∧
+    interpolateToTimestep ap vals ts none nc pit = interpolateToTimestep ap vals ts (some nc) nc' pit := by
+  constructor
+  · simp [interpolateToTimestep]
+  · cases nc <;> simp [interpolateToTimestep]
+
+/-- **Refining to the same timestep changes nothing** (branch `n_sub = 1`): one sub-step per step,
+    division by one, shift by `int(1 / 2) = 0`. -/
+theorem C13_interp_same_timestep (vals : List Rat) (divide shift : Bool) : refine vals 1 divide shift = vals := by
+  have hx : ∀ a b : Rat, xxrange a b 1 = [a] := by
+    intro a b; simp [xxrange, List.range_succ]
+  have hraw : ((List.range vals.length).flatMap fun d =>
+      xxrange (vals.getD d 0) (vals.getD ((d + 1) % vals.length) 0) 1) = vals := by
+    simp only [hx]
+    have hf : ∀ (l : List Nat) (f : Nat → Rat), l.flatMap (fun d => [f d]) = l.map f := by
+      intro l f
+      induction l with
+      | nil => rfl
+      | cons a t ih => simp [List.flatMap_cons, ih]
+    rw [hf]
+    apply List.ext_getElem
+    · simp
+    · intro i h1 h2
+      simp at h1
+      simp [List.getD_eq_getElem?_getD, h1]
+  unfold refine
+  simp only [hraw]
+  have hdiv : (if divide = true then vals.map (· / ((1 : Nat) : Rat)) else vals) = vals := by
+    cases divide <;> simp
+  rw [hdiv]
+  cases shift
+  · rfl
+  · have hc0 : Py.clampIdx vals.length 0 = 0 := by simp [Py.clampIdx]
+    have hcn : Py.clampIdx vals.length (vals.length : Int) = vals.length := by simp [Py.clampIdx]
+    simp [shiftRight, Py.slice, hc0, hcn]
+
+/-! ### In-place cull of a continuous collection to a timestep that does not divide its own
+    (round 4; finding C02-cont-cull-nondividing-timestep, repair
+    fixes/C13_continuous_cull_in_place_divisor.patch) -/
+
+/-- **The defect (code without the repair)**: without the divisibility assertion the in-place cull
+    6 -> 4 of a coherent continuous collection is accepted and leaves 48 values (:00 and :30 of every
+    hour) under a header period of 96 steps – the object is no longer coherent. -/
+theorem C13_convert_cull_nondividing_counterexample :
+    exCont6.Coherent ∧
+    (convCullWith false exCont6.pub 4).toOption.map (fun r => (r.2.length, r.1.len, r.2.take 3)) =
+      some (48, 96, [(194 * 1440, 0), (194 * 1440 + 30, 3), (194 * 1440 + 60, 6)]) := by
+  decide +kernel
+
+/-- **The repaired behaviour**: with the divisibility assertion (`strict = true`) the in-place cull of
+    a continuous collection answers only when the target timestep divides the current one; any other
+    target is refused with an AssertionError (after the validity check of the timestep and after the
+    AttributeError of an immutable collection), and discontinuous collections are culled as before. -/
+theorem C13_convert_cull_strict (p : Pub) (ts : Nat) :
+    (p.cont = true → p.imm = false → ts ∈ Gen.Ap.validTimesteps → p.ap.timestep % ts ≠ 0 →
+      convCullWith true p ts = .error .assert) ∧
+    (∀ r, convCullWith true p ts = .ok r → p.cont = true → p.ap.timestep % ts = 0) ∧
+    (p.cont = false ∨ p.ap.timestep % ts = 0 → convCullWith true p ts = convCullWith false p ts) := by
+  refine ⟨?_, ?_, ?_⟩
+  · intro hc hi hv hd
+    simp [convCullWith, contCullRefused, hc, hi, hv, hd]
+  · intro r h hc
+    by_cases hd : p.ap.timestep % ts = 0
+    · exact hd
+    · exfalso
+      unfold convCullWith at h
+      split at h
+      · cases h
+      · split at h
+        · simp [contCullRefused, hc, hd] at h
+        · cases h
+  · intro h
+    have h1 : contCullRefused true p ts = false := by
+      rcases h with h | h <;> simp [contCullRefused, h]
+    have h0 : contCullRefused false p ts = false := by simp [contCullRefused]
+    unfold convCullWith
+    simp only [h1, h0]
+
+/-- **A refused in-place cull changes nothing, an accepted one is the cull of the unrepaired code**:
+    the machine of the code under test (`step`, strictness read off the source) either refuses
+    `convert_to_culled_timestep` and keeps the object, or does what `convCullWith false` does. -/
+theorem C13_convert_cull_refines (o : Obj) (ts : Nat) :
+    ((step o (.convCull ts)).2 = .done → convCullP o.pub ts = convCullWith false o.pub ts) ∧
+    (∀ e, (step o (.convCull ts)).2 = .refused e → (step o (.convCull ts)).1 = o) := by
+  refine ⟨?_, fun e h => (C13_refused_preserves o _ e h).1⟩
+  intro h
+  have h0 : contCullRefused false o.pub ts = false := by simp [contCullRefused]
+  by_cases hr : contCullRefused Gen.ResampleSrc.contCullStrict o.pub ts = true
+  · exfalso
+    have he : ∃ e, convCullP o.pub ts = .error e := by
+      unfold convCullP convCullWith
+      split
+      · exact ⟨_, rfl⟩
+      · split
+        · first | exact ⟨_, rfl⟩ | (rw [if_pos hr]; exact ⟨_, rfl⟩)
+        · exact ⟨_, rfl⟩
+    obtain ⟨e, he⟩ := he
+    simp [step, he] at h
+  · have hr' : contCullRefused Gen.ResampleSrc.contCullStrict o.pub ts = false := by simpa using hr
+    unfold convCullP convCullWith
+    simp only [hr', h0]
+
+/-! #### Coherence of continuous objects along a history -/
+
+/-- The arithmetic fact the coherence of an accepted in-place cull rests on (NOT proved here; it is
+    what the `cull` / `hist` correspondence compares on every run and what the `#guard`s below
+    evaluate on samples): for a coherent continuous object and a timestep that divides its own, the
+    kept pairs are exactly one per step of the period with the new timestep. -/
+def DividingCullFits : Prop :=
+  ∀ (o : Obj) (ts : Nat) (r : AP × List (Nat × Rat)), o.Coherent → o.cont = true → o.ap.timestep % ts = 0 →
+    convCullWith true o.pub ts = .ok r → r.2.length = r.1.len ∧ r.2.map (·.1) = r.1.moys
+
+/-- **Continuous collections stay coherent along every history** (partial: rests on the hypothesis
+    `DividingCullFits`, see there).  With the repaired in-place cull (`strict`: the source asserts
+    divisibility) every operation of the machine – reads, derived collections adopted or not, setters,
+    refused calls, copies, in-place culls – leaves a continuous object with one value per step of its
+    header period and with datetimes that are the steps of that period.  Without the repair this is
+    false: `C13_convert_cull_nondividing_counterexample`. -/
+theorem C13_history_continuous_coherent_partial (hstrict : Gen.ResampleSrc.contCullStrict = true)
+    (hfit : DividingCullFits) (o : Obj) (ho : o.Coherent) (h : List Op) : (run o h).1.Coherent := by
+  induction h generalizing o with
+  | nil => exact ho
+  | cons op rest ih =>
+    show (run (step o op).1 rest).1.Coherent
+    apply ih
+    cases op with
+    | read fill =>
+      cases fill
+      · exact ho
+      · simp only [step]
+        intro hc
+        have hc' : o.cont = true := hc
+        have hco := ho hc'
+        exact ⟨hco.1, by simpa [Obj.fill, Obj.moys] using hco.2⟩
+    | validate adopt => exact derive_coherent o adopt _ ho (fun n hn => validateP_coherent hn)
+    | cull ts adopt => exact derive_coherent o adopt _ ho (fun n hn => cullP_coherent hn)
+    | holes adopt => exact derive_coherent o adopt _ ho (fun n hn => holesP_coherent hn)
+    | interp ts cum adopt => exact derive_coherent o adopt _ ho (fun n hn => interpP_coherent hn)
+    | toImmutable => exact derive_coherent o true _ ho (fun n hn => copyP_coherent hn)
+    | toMutable => exact derive_coherent o true _ ho (fun n hn => copyP_coherent hn)
+    | duplicate => exact derive_coherent o true _ ho (fun n hn => copyP_coherent hn)
+    | dictRoundTrip => exact derive_coherent o true _ ho (fun n hn => copyP_coherent hn)
+    | toDiscontinuous => exact derive_coherent o true _ ho (fun n hn => toDiscP_coherent hn)
+    | setValues vs =>
+      simp only [step]
+      cases hs : setValuesP o.pub vs with
+      | error e => exact ho
+      | ok w =>
+        intro hc
+        have hc' : o.cont = true := hc
+        have hco := ho hc'
+        exact ⟨setValuesP_len hs hc', hco.2⟩
+    | setItem i v =>
+      simp only [step]
+      cases hs : setItemP o.pub i v with
+      | error e => exact ho
+      | ok w =>
+        intro hc
+        have hc' : o.cont = true := hc
+        have hco := ho hc'
+        exact ⟨(setItemP_len hs).trans hco.1, hco.2⟩
+    | convCull ts =>
+      simp only [step]
+      cases hcv : convCullP o.pub ts with
+      | error e => exact ho
+      | ok r =>
+        intro hc
+        have hc' : o.cont = true := hc
+        unfold convCullP at hcv
+        rw [hstrict] at hcv
+        have hdiv : o.ap.timestep % ts = 0 := (C13_convert_cull_strict o.pub ts).2.1 r hcv hc'
+        obtain ⟨h1, h2⟩ := hfit o ts r ho hc' hdiv hcv
+        refine ⟨by simpa using h1, ?_⟩
+        simpa [Obj.moys] using h2
+
+-- `DividingCullFits` on samples: 6 -> 3, 6 -> 2, 6 -> 1, 12 -> 4 (wrapping, leap) keep one pair per step of the new period
+#guard (convCullWith true exCont6.pub 3).toOption.map (fun r => decide (r.2.length = r.1.len ∧ r.2.map (·.1) = r.1.moys)) = some true
+#guard (convCullWith true exCont6.pub 2).toOption.map (fun r => decide (r.2.length = r.1.len ∧ r.2.map (·.1) = r.1.moys)) = some true
+#guard (convCullWith true exCont6.pub 1).toOption.map (fun r => decide (r.2.length = r.1.len ∧ r.2.map (·.1) = r.1.moys)) = some true
+#guard (convCullWith true (Obj.pub ⟨true, false, ⟨12, 31, 0, 1, 1, 23, 12, true⟩, (List.range 576).map (fun (k : Nat) => (k : Rat)),
+    none, true, false, true⟩) 4).toOption.map (fun r => decide (r.2.length = r.1.len ∧ r.2.map (·.1) = r.1.moys)) = some true
+
+-- the repaired code refuses 6 -> 4 and 6 -> 12 on the continuous collection, accepts 6 -> 3
+#guard convCullWith true exCont6.pub 4 = .error .assert
+#guard convCullWith true exCont6.pub 12 = .error .assert
+#guard (convCullWith true exCont6.pub 3).toOption.map (fun r => (r.1.timestep, r.2.length)) = some (3, 72)
+#guard convCullWith true exCont6.pub 7 = .error .assert
 
 end Resample
